@@ -26,7 +26,10 @@ CASE_TIMEOUT = {"quick": 120, "thorough": 900}
 def planted_sets(n, r, howmany):
     out = []
     for _ in range(howmany):
-        out.append([v if r.random() < 0.5 else -v for v in range(1, n + 1)])
+        a = [v if r.random() < 0.5 else -v for v in range(1, n + 1)]
+        if r.random() < 0.5:
+            r.shuffle(a)                # an assignment is a set of literals: the order they come in means nothing
+        out.append(a)
     return out
 
 
@@ -254,7 +257,55 @@ def case_cli(ctx, family, k, n, m, plant, seed):
     ctx.judged(("cli", family, k, n, m, plant, seed), nontrivial=m > 0, sample={"argv": argv})
 
 
+def case_max(ctx, family, k, n, rseed):
+    """The exact maximum with zero and with one planted (total) assignment, for every k at a given n:
+    C(n,k)*2^k resp. C(n,k)*(2^k-1) clauses, 2*C(n,k) resp. C(n,k) parities.  m = max accepted, max+1 refused."""
+    import math
+    import cnfgen.families.randomformulas as rf
+    import cnfgen.families.randomkxor as rx
+    r = ctx.rng("c13max", family, k, n, rseed)
+    gen = rf.RandomKCNF if family == "kcnf" else rx.RandomKXOR
+    for nplanted in (0, 1):
+        planted = planted_sets(n, r, nplanted)
+        if family == "kcnf":
+            mx = math.comb(n, k) * (2 ** k - nplanted)
+        else:
+            mx = math.comb(n, k) * (2 - nplanted)
+        for m, feasible in ((mx, True), (mx + 1, False)):
+            seed = r.randint(0, 10 ** 6)
+            label = "%s(k=%d,n=%d,m=%d,planted=%r,seed=%d) [maximum %d]" % (gen.__name__, k, n, m, planted, seed, mx)
+            st, F = ctx.call(gen, k, n, m, seed=seed, planted_assignments=[list(a) for a in planted])
+            if st == "exc":
+                if isinstance(F, ValueError) and not feasible:
+                    ctx.count("refusals_expected")
+                elif isinstance(F, ValueError):
+                    ctx.violation("rand%s:refuses-feasible" % family, "%s raised %r" % (label, F))
+                else:
+                    ctx.violation("rand%s:raises:%s" % (family, type(F).__name__), "%s raised %r" % (label, F))
+            elif not feasible:
+                ctx.violation("rand%s:accepts-infeasible" % family, "%s returned %d clauses" % (label, len(F)))
+            else:
+                ctx.count("exact_maximum_planted%d" % nplanted)
+                if family == "kcnf":
+                    check_kcnf(ctx, F, k, n, m, planted, label)
+                else:
+                    if len(F) != m * 2 ** (k - 1) or F.number_of_variables() != n:
+                        ctx.violation("randkxor:shape", "%s: %d clauses / %d variables" % (label, len(F), F.number_of_variables()))
+                    sets = [set(a) for a in planted]
+                    if any(not any(l in a for l in c) for a in sets for c in F):
+                        ctx.violation("randkxor:planted-falsified", "%s: a clause is falsified by the planted assignment" % label)
+            ctx.judged(("max", family, k, n, m, nplanted), nontrivial=True, sample={"call": label})
+
+
 def workload(tier, seed):
+    import math
+    for family in ("kcnf", "kxor"):
+        # clauses produced at the maximum; the k-CNF ones are inspected one by one, the parities only counted
+        limit = {"kcnf": 12000, "kxor": 450000} if tier == "quick" else {"kcnf": 150000, "kxor": 3000000}
+        for n in range(7, 19):
+            for k in range(1, n + 1):
+                if math.comb(n, k) * 2 ** k <= limit[family]:
+                    yield "max", {"family": family, "k": k, "n": n, "rseed": seed}
     reps = 5 if tier == "quick" else 40
     for family in ("kcnf", "kxor"):
         for k in range(0, 5):
